@@ -22,8 +22,8 @@ while k<len(lines) and lines[k].startswith('|'): k+=1
 rest='\n'.join(lines[k:])
 s=s[:b]+'\n'.join(rows)+'\n'+rest
 n=len(metas); f=sum(1 for m in metas if first(m))
-s=re.sub(r'\d+ seeds \((?:three|four|five|six|seven|eight) per claimed property[^)]*\): \d+ caught as first built, \d+ missed',
-         f'{n} seeds (eight per claimed property, seven for C12 whose fifth is kept under seeded-superseded/; from the third on each was asked to depend on a schedule, history, fault or unusual combination, and was told the mechanisms already used): {f} caught as first built, {n-f} missed',s,count=1)
+s=re.sub(r'\d+ seeds \((?:three|four|five|six|seven|eight|eight or nine) per claimed property[^)]*\): \d+ caught as first built, \d+ missed',
+         f'{n} seeds (eight or nine per claimed property; the fifth of C12 is kept under seeded-superseded/; from the third on each was asked to depend on a schedule, history, fault or unusual combination, and was told the mechanisms already used): {f} caught as first built, {n-f} missed',s,count=1)
 s=re.sub(r'all \d+\nare caught by the quick tier now', f'all {n}\nare caught by the quick tier now', s, count=1)
 open(p,'w').write(s)
 print(n,f)
